@@ -18,7 +18,7 @@ LEVEL = {
  'C10': ('E2', 'yield fairness on the real scheduler: bypass counter bounded for every yield pattern within the step bound'),
  'C11': ('E2', 'signal wait/raise handshake decided over all interleavings; channel scenarios (queue + signal) are stretch jobs without verdict so far, for them the claim is compositional (queues: C15/C16, never-lost raise: the signal scenarios) and says so'),
  'C12': ('E2', 'barrier over the fiber contract kernel: count 2 one round (SC, TSO) and count 1 two rounds decided; count 2 x 2 rounds and count 3 are stretch jobs without verdict so far and are not claimed'),
- 'C13': ('E2', 'mpmc fifo + hazard pointers, all interleavings of small producer/consumer sets with node recycling'),
+ 'C13': ('E1', 'rely/guarantee step: one real mpmc_fifo_trypop / mpmc_fifo_push (with the real hazard_pointer_using/done_using/free) against an environment that pops, pushes, links, reclaims and reuses nodes at every point where the real code touches shared memory, under the hazard-pointer contract of C14; ghost queue decides true-successor / FIFO value / exactly-once retirement / legitimate empty'),
  'C14': ('E1+E2', 'hazard_pointer_scan / binary search / threshold arithmetic for arbitrary ordering patterns (E1, N<=3,K<=2) and for arbitrary 64-bit slot values on integer addresses (E2); scan racing with a registration is a stretch job; the publish/validate side inside mpmc_fifo is not covered'),
  'C15': ('E2', 'mpsc / spsc / relaxed mpsc: every interleaving (and x86-TSO reordering for small configurations) of the stated producer/consumer programs, incl. liveness of the consumer (nothing lost)'),
  'C16': ('E2', 'ring buffer trypush/trypop: every interleaving of the stated programs from symbolic start indices incl. wrap-around through 2^64'),
@@ -28,7 +28,6 @@ LEVEL = {
  'C20': ('E2', 'double-word-CAS structures: every interleaving of ABA-provoking programs (pop / reuse / push) on lifo, dist_fifo, mpmc_stack, multi-signal'),
 }
 NOT_APPLICABLE = {
- 'C13': 'bounded symbolic checking could not reach a verdict: the real mpmc_fifo push/pop over the real hazard-pointer code (two hazard publications with fences, validation re-reads, retire list, scan reachable from hazard_pointer_free) exceeds what CBMC\'s partial-order encoding digests even at 1 pusher x 2 / 2 poppers (no verdict in 30 min); the harness e2/harness/mpmc.c is kept but not claimed (DESIGN.md section 5)',
 }
 checks, na = [], []
 for p in props:
@@ -59,7 +58,7 @@ m = {
            'baseline_off_cmd': 'cd /repo && cmake -G Ninja -B _build >/dev/null && (cmake --build _build -- -k 0 >/dev/null; ctest --test-dir _build -j8 --timeout 900)',
            'source_commits': [], 'add_only': True},
  'engines': [
-  {'name': 'E1 cbmc-src', 'path': 'e1/', 'serves_properties': ['C05', 'C06', 'C07', 'C08', 'C09', 'C11', 'C14', 'C17', 'C18', 'C19'], 'kind_free_text': 'CBMC on the real .c files with contract stubs for the environment'},
+  {'name': 'E1 cbmc-src', 'path': 'e1/', 'serves_properties': ['C05', 'C06', 'C07', 'C08', 'C09', 'C11', 'C13', 'C14', 'C17', 'C18', 'C19'], 'kind_free_text': 'CBMC on the real .c files with contract stubs for the environment'},
   {'name': 'E2 fvm', 'path': 'e2/', 'serves_properties': ['C01', 'C02', 'C03', 'C04', 'C05', 'C06', 'C07', 'C09', 'C10', 'C11', 'C12', 'C13', 'C14', 'C15', 'C16', 'C17', 'C18', 'C20'], 'kind_free_text': 'clang -O1 IR of the real units -> ir2cell -> C over integer cell memory -> CBMC threads (--mm sc / tso)'},
   {'name': 'E3 x86sym', 'path': 'e3/', 'serves_properties': ['C19'], 'kind_free_text': 'z3 symbolic interpreter for the inline assembly of fiber_context_swap extracted from the IR'},
  ],
